@@ -1,9 +1,11 @@
 ----------------------------------------- MODULE MC_EmitBin -----------------------------------------
-(* Runs of the slicec binary for C14: template program x format x --disable-color x -A list.        *)
+(* Runs of the slicec binary for C14: template program x format x --disable-color x -A list x a      *)
+(* generator that cannot be started (its error is recorded after compilation and must be written and  *)
+(* counted like every other diagnostic).                                                              *)
 EXTENDS Naturals, TLC, Json
 VARIABLE run
 Allows == {<<>>, <<"All">>, <<"Deprecated">>, <<"BrokenDocLink", "IncorrectDocComment">>}
-Init == run \in [prog : 1..6, format : {"human", "json"}, disable_color : BOOLEAN, allow : Allows]
+Init == run \in [prog : 1..6, format : {"human", "json"}, disable_color : BOOLEAN, allow : Allows, gen : {"none", "missing"}]
 Next == UNCHANGED run
 Emit == PrintT(<<"CASE", ToJson(run)>>)
 ====================================================================================================
